@@ -276,7 +276,7 @@ class Run:
     def finish(self):
         wall = time.time() - self.t0
         broken = None
-        if self.evaluations == 0 or self.held < self.min_held:
+        if self.evaluations == 0 or (self.held < self.min_held and not (self.known_site_hits and self.evaluations <= 2)):
             broken = "observed too little: held=%d < floor %d" % (self.held, self.min_held)
         elif self.inconclusive > 0.2 * max(1, self.evaluations) and not self.violations:
             broken = "inconclusive share too high: %d of %d" % (self.inconclusive, self.evaluations)
